@@ -27,6 +27,12 @@ CHECKS = {
  "C05": dict(tech="verified checker: Coq decoder written from format.h with proved soundness/totality, extracted and run on every produced file; content compared with the library reader",
    text="coq/Decode.v is an independent decoder written only from include/jls/format.h; coq/Properties_C05.v proves, for all byte strings, that dw_walk terminates and that dw_walk f = Ok w implies the conformance record (file header CRC/id/version/length; chunks tile the file, 8-aligned, header and payload CRCs valid w.r.t. crc_spec, zero padding, END last; payload_prev_length chain; doubly linked lists per list identity; track head tables; INDEX followed by SUMMARY; FSR/annotation/UTC index entries point to chunks of the expected kind, signal, level and timestamp), plus encode/decode round trips of every header. The extracted decoder walks (strict mode) every file produced here by the sync writer, by jls_copy and by repair-on-open, and its rebuilt definitions/annotations/UTC/user data are compared with the library reader.",
    note=COMMON_NOTE + "Verified checker on sampled outputs: that the writer ALWAYS produces conformant files is not proved (no byte-level writer theorem yet). Non-conformant repaired files are recorded known findings.", ref="5/C05"),
+ "C06": dict(tech="Coq proof over all schedules of a step model of threaded_writer.c (any number of producers, any capacity) + deterministic schedule exploration of the real threads (wrapped pthread/clock/IO) with the extracted model predicting every call",
+   text="coq/TwrModel.v models jls_twr_* and the writer thread at the granularity of its synchronisation points over the concrete ring buffer of coq/MrbModel.v; coq/Properties_C06.v proves for every schedule: mutual exclusion of the two locks, processed ++ unprocessed = accepted (FIFO, exact bytes, C08 ring invariant kept), after close the writer's call sequence is exactly the accepted sequence with close last, and a send that returned an error leaves no trace while a send that returned 0 is queued exactly once. harness/twr_sched.c runs the real code under a baton scheduler with virtual time (seeded random, starvation and model-enumerated preemption-bounded schedules, queues of 4096 and 512 bytes, plain and ASan+UBSan builds); oracles: file equals the synchronous reference, queue order and message hashes, return codes consistent with the queue, lockset discipline; the extracted model must predict every wrapped call.",
+   note=COMMON_NOTE + "Unlocked reads of flush_processed_id / quit are atomic in the model; hardware memory ordering and data races below the granularity of the wrapped calls are not modelled (the TSan target exists but is not part of the verdict).", ref="5/C06"),
+ "C07": dict(tech="Coq proof (all schedules) of the flush/close post-conditions and deadlock freedom of the threaded-writer protocol model + schedule exploration of the real threads under virtual time",
+   text="coq/Properties_C07.v proves on coq/TwrModel.v for every schedule: when close returns every accepted message has been applied, the queue is empty and jls_wr_close ran last; when flush returns 0 every message accepted before it has been applied and flushed (ticket argument, < 2^64 tickets); no reachable state of the repaired protocol is deadlocked (final, or a sleeper, or an enabled thread); the pre-fix protocol's close hang is kept as a refutation witness (vm_compute) together with the proof that the repaired protocol has none. harness/twr_sched.c explores schedules of the real code incl. starvation, queue-full and time-out paths with virtual time; oracles: flush=0 implies applied+fsync'ed and (one producer) file snapshot equals the reference; close implies everything applied, END chunk, header length; DEADLOCK/LIVELOCK detection; the model predicts every wrapped call.",
+   note=COMMON_NOTE + "Progress under fairness (every call eventually returns) is not proved, only deadlock freedom; OS scheduling, real time and memory ordering are replaced by the harness's scheduler and virtual clock.", ref="5/C07"),
  "C08": dict(tech="Coq refinement proof of the ring buffer to a FIFO (all capacities <= 2^31, all sizes, all op sequences) + complete small-capacity state space replayed on the C",
    text="coq/Properties_C08.v: invariant + abstraction function; alloc/peek/pop refine list append/head/tail; allocated regions lie inside the buffer and are disjoint from un-popped messages; alloc fails only when no free run can hold the message with its framing; after emptying, any message up to capacity-8 is accepted; every reachable state satisfies the invariant and no operation faults. Refutation witnesses document the repaired near-capacity defect. The C is tied by replaying the complete reachable state space for capacities 16..28 (thorough 16..34) and long random walks on both ASan and guard-byte builds.",
    note=COMMON_NOTE + "Buffers above 2^31 bytes are outside the theorems (uint32 index arithmetic).", ref="5/C08"),
